@@ -50,3 +50,17 @@ Print Assumptions C07_out_ts_monotone.
 (* non-vacuity: the defect input of the unrepaired code (newest = 5, then 6) is accepted *)
 Example C07_small_register : win_hist 0 [5; 5; 6; 2000000; 1500000; 999999] = [true; true; true; true; true; false].
 Proof. vm_compute. reflexivity. Qed.
+
+(* ---- tie by translation (gen/SrcFrame.v, gen/SrcStreamwriter.v regenerated from the source on
+   every run) ---- the signature clock counts 10 microsecond ticks since 1st January 2015 in both
+   writers, and the reader's window is the model's *)
+From Coq Require Import ZArith List.
+Import ListNotations.
+From GM Require Import SrcFrame SrcStreamwriter SrcFrameTie.
+Theorem C07_source_signature_constants :
+  (v_frame_signatureReferenceDate_args = [2015; 1; 1; 0; 0; 0; 0] /\
+   v_streamwriter_signatureReferenceDate_args = [2015; 1; 1; 0; 0; 0; 0] /\
+   k_frame_Writer_writeFrameAndFill = [0; 0; 1; 10000] /\ k_streamwriter_Writer_writeInner = [0; 0; 1; 10000] /\
+   k_frame_Reader_Read = [254; 253; 0; Z.of_N Reader.window])%Z.
+Proof. exact src_frame_signing. Qed.
+Print Assumptions C07_source_signature_constants.
